@@ -141,8 +141,8 @@ def build(repo):
         f = lambda t: t.replace('$E', exit_expr).replace('$SOFT', 'True' if q.endswith('soft_restart') else 'False')
         return (f(c[0]),) + tuple(c[1:]) if isinstance(c, tuple) else f(c)
 
-    def method(q, res, exit_expr, extra_ens=(), extra_req=(), extra_mod=(), params=None, **kw):
-        D.contract(q, tags=['C02', 'C04', 'C08', 'C10'], params=dict({'number_of_samples': 'int'}, **(params or {})),
+    def method(q, res, exit_expr, extra_ens=(), extra_req=(), extra_mod=(), params=None, extra_tags=(), **kw):
+        D.contract(q, tags=['C02', 'C04', 'C08', 'C10'] + list(extra_tags), params=dict({'number_of_samples': 'int'}, **(params or {})),
                    requires=common_req + ['number_of_samples >= 1'] + list(extra_req),
                    modifies=LEDGER_MODS + MODEL_GHOSTS + list(extra_mod), result=res,
                    ensures=[sub(c, exit_expr, q) for c in common_ens] + list(extra_ens),
@@ -151,10 +151,10 @@ def build(repo):
     method('Controller.geometry_step', 'optexit', 'result', params={'knew': 'int'})
     method('Controller.check_and_fix_geometry', ('bool', 'optexit'), 'result[1]')
     method('Controller.add_new_direction_while_growing', 'optexit', 'result')
-    method('Controller.initialise_coordinate_directions', 'optexit', 'result',
+    method('Controller.initialise_coordinate_directions', 'optexit', 'result', extra_tags=['C14'],
            extra_req=['parallel coordinate initialisation is rejected by solve (O8: expected dead):: not params("init.run_in_parallel")'],
            dead=['return#3'])
-    method('Controller.initialise_random_directions', 'optexit', 'result',
+    method('Controller.initialise_random_directions', 'optexit', 'result', extra_tags=['C14'],
            extra_req=[('batched (parallel) initialisation is outside the ledger contract (D6/D23):: not params("init.run_in_parallel")', 'C03', 'C04')],
            dead=['return#1'])
     method('Controller.move_furthest_points', 'optexit', 'result')
